@@ -18,6 +18,7 @@ BAD_DESIGNS = [  # (seeded design error, MCDps, MCFams, MCTrunk, MCEnis): each m
     ("from_rule_to_main", '{"policy"}', '{"v4"}', "{FALSE}", "{1}"),
     ("trunk_uses_member_gateway", '{"policy"}', '{"dual"}', "{TRUE}", "{1}"),
     ("v6_rule_for_v4_pod", '{"policy"}', '{"v4"}', "{FALSE}", "{1, 2}"),
+    ("no_stub_neighbour", '{"policy"}', '{"dual"}', "{FALSE}", "{1}"),
     ("teardown_keeps_link", '{"policy"}', '{"v4"}', "{FALSE}", "{1, 2}"),
     ("teardown_keeps_from_rule", '{"policy"}', '{"dual"}', "{FALSE}", "{1, 2}"),
     ("teardown_flushes_eni_table", '{"policy"}', '{"dual"}', "{FALSE}", "{1}"),
@@ -102,8 +103,11 @@ def model_checking(ctx):
             ("fam", dict(base, dps='{"policy", "ipvlan"}', fams='{"v4", "v6", "dual"}', trunk="{FALSE, TRUE}", extra="{0, 1}", multi="{FALSE}", enis="{1}"), 4)]
     if not q:
         runs += [("pods3", dict(base, ns="{0, 1, 2, 3}", atts="{1, 2, 3, 4, 5, 6}", pods="{1, 2, 3}", dps='{"policy"}', fams='{"v4", "dual"}', trunk="{FALSE}"), 6),
-                 ("mixed", dict(base, dps='{"policy", "exclusive", "ipvlan", "vlan"}', fams='{"v4", "v6", "dual"}', trunk="{FALSE, TRUE}", multi="{FALSE}"), 6),
-                 ("multi", dict(base, dps='{"policy", "exclusive", "ipvlan", "vlan"}', fams='{"dual", "v6"}', trunk="{FALSE, TRUE}"), 6)]
+                 ("pods3x", dict(base, ns="{0, 1, 2, 3}", atts="{1, 2, 3, 4, 5, 6}", pods="{1, 2, 3}", dps='{"policy", "exclusive"}', fams='{"dual"}',
+                                 trunk="{FALSE}", multi="{FALSE}"), 4),
+                 ("mixed", dict(base, dps='{"policy", "exclusive", "ipvlan", "vlan"}', fams='{"v4", "v6"}', trunk="{FALSE, TRUE}", multi="{FALSE}", enis="{1}"), 4),
+                 ("mixed2", dict(base, dps='{"policy", "exclusive"}', fams='{"v4", "v6"}', trunk="{FALSE, TRUE}", multi="{FALSE}"), 6),
+                 ("multi", dict(base, dps='{"policy", "exclusive", "ipvlan", "vlan"}', fams='{"v6"}', trunk="{FALSE}", multi="{TRUE}"), 4)]
     bad = [(b[0], dict(base, dps=b[1], fams=b[2], trunk=b[3], enis=b[4], bad=b[0], inv="BadRefused", multi="{FALSE}"), 1) for b in BAD_DESIGNS]
     out = {}
     with concurrent.futures.ThreadPoolExecutor(max_workers=6) as ex:
